@@ -1842,6 +1842,9 @@ func NewRaw(json string) Node {
 	if err != 0 {
 		return *newError(err, err.Message())
 	}
+	if skipBlank(parser.s, parser.p) != -int(types.ERR_EOF) {
+		return *newError(types.ERR_INVALID_CHAR, types.ERR_INVALID_CHAR.Message())
+	}
 	it := switchRawType(parser.s[start])
 	if it == _V_NONE {
 		return Node{}
@@ -1857,6 +1860,9 @@ func NewRawConcurrentRead(json string) Node {
 	start, err := parser.skip()
 	if err != 0 {
 		return *newError(err, err.Message())
+	}
+	if skipBlank(parser.s, parser.p) != -int(types.ERR_EOF) {
+		return *newError(types.ERR_INVALID_CHAR, types.ERR_INVALID_CHAR.Message())
 	}
 	it := switchRawType(parser.s[start])
 	if it == _V_NONE {
